@@ -742,4 +742,25 @@ theorem setNames_noSingle (ns : List String) (t : T) : (setNames ns t).1.noSingl
   obtain ⟨d, p, k⟩ := t
   simp [setNames, T.noSingle, (setNamesL_ns ns.tail k).1]
 
+/- ## AddQuotes / RemoveQuotes keep the shape -/
+
+mutual
+theorem mapSel_ns (sel : Bool → Bool) (f : String → String) : ∀ (hp : Bool) (t : T),
+    (mapSel sel f hp t).noSingleBelow = t.noSingleBelow
+  | hp, .node d p k => by
+    obtain ⟨h1, h2⟩ := mapSelL_ns sel f k
+    simp only [mapSel, noSingleBelow_node, h1, h2]
+theorem mapSelL_ns (sel : Bool → Bool) (f : String → String) : ∀ (k : Kids),
+    noSingleL (mapSelL sel f k) = noSingleL k ∧ (mapSelL sel f k).length = k.length
+  | [] => by simp [mapSelL]
+  | (e, t) :: r => by
+    obtain ⟨h1, h2⟩ := mapSelL_ns sel f r
+    simp [mapSelL, noSingleL, mapSel_ns sel f true t, h1, h2]
+end
+
+theorem mapSel_noSingle (sel : Bool → Bool) (f : String → String) (t : T) :
+    (mapSel sel f false t).noSingle = t.noSingle := by
+  obtain ⟨d, p, k⟩ := t
+  simp [mapSel, T.noSingle, (mapSelL_ns sel f k).1]
+
 end Gotree.C03
